@@ -177,6 +177,10 @@ func checkC18(tier, replay string) int {
 			os.WriteFile(p, []byte(txt), 0o644)
 			listings[fmt.Sprintf("%s/%d", ga, set)] = p
 			foundOf[fmt.Sprintf("%s/%d", ga, set)] = found
+			// the same text without the final newline (a disassembler that does not terminate its last line)
+			pn := filepath.Join(scratch, fmt.Sprintf("l-%s-%d-nonl.lst", ga, set))
+			os.WriteFile(pn, []byte(strings.TrimSuffix(txt, "\n")), 0o644)
+			listings[fmt.Sprintf("%s/%d/nonl", ga, set)] = pn
 		}
 	}
 	var seq, done, nonEmpty, events int64
@@ -219,7 +223,11 @@ func checkC18(tier, replay string) int {
 			argv = append(argv, "-out", outArg)
 		}
 		argv = append(argv, bin)
-		res := runCmd(60*time.Second, pe.env(listings[k], nil), scratch, argv...)
+		lst := listings[k]
+		if r.Style%4 == 1 {
+			lst = listings[k+"/nonl"]
+		}
+		res := runCmd(60*time.Second, pe.env(lst, nil), scratch, argv...)
 		atomic.AddInt64(&done, 1)
 		if outPath != "" && res.Exit == 0 {
 			b, err := os.ReadFile(outPath)
@@ -371,7 +379,7 @@ func checkC18(tier, replay string) int {
 	ctx.Cov["profiler_runs"] = done
 	ctx.Cov["runs_with_non_empty_profile"] = nonEmpty
 	ctx.Cov["filter_events_executed"] = events
-	ctx.Cov["rule"] = "the real profiler binary (with a fake `go` tool printing a synthetic listing) is run for every sub-multiset of a 7-site universe (read, write at two sites, exit_group, a number in no table, syscall 0 through the XOR idiom, readv = a name with another discovered name as proper prefix) x blacklist subsets of {read, exit_group, bogus_syscall, readv} x allow subsets of {write, rt_sigreturn, bogus_allow, waitpid(i386 only)} x flag spellings (comma, semicolon, blank+comma, repeated flag, a name repeated inside one value, a name repeated across flags) x formats {config, code} x binaries {amd64, 386} x output destination in rotation {stdout, -out with a GOOS/GOARCH template naming a fresh file, -out naming a file that an earlier more permissive invocation wrote a longer profile to} (quick: a rotating selection of the last dimensions; thorough: the full product); the emitted name list (YAML parsed by the harness / Go code parsed with go/parser) must equal sort(dedup((found ∩ table) − blacklist) ∪ (allow ∩ table)); the YAML must load through ucfg and compile to a filter that, on every cell of the exact partition, allows exactly those syscalls and answers errno otherwise; plus runs on a disassembly with an over-long line before each function: exit status 0 is only acceptable with the list for all sites; non-trivial = runs with a non-empty profile"
+	ctx.Cov["rule"] = "the real profiler binary (with a fake `go` tool printing a synthetic listing, a quarter of the runs without the final newline) is run for every sub-multiset of a 7-site universe (read, write at two sites, exit_group, a number in no table, syscall 0 through the XOR idiom, readv = a name with another discovered name as proper prefix) x blacklist subsets of {read, exit_group, bogus_syscall, readv} x allow subsets of {write, rt_sigreturn, bogus_allow, waitpid(i386 only)} x flag spellings (comma, semicolon, blank+comma, repeated flag, a name repeated inside one value, a name repeated across flags) x formats {config, code} x binaries {amd64, 386} x output destination in rotation {stdout, -out with a GOOS/GOARCH template naming a fresh file, -out naming a file that an earlier more permissive invocation wrote a longer profile to} (quick: a rotating selection of the last dimensions; thorough: the full product); the emitted name list (YAML parsed by the harness / Go code parsed with go/parser) must equal sort(dedup((found ∩ table) − blacklist) ∪ (allow ∩ table)); the YAML must load through ucfg and compile to a filter that, on every cell of the exact partition, allows exactly those syscalls and answers errno otherwise; plus runs on a disassembly with an over-long line before each function: exit status 0 is only acceptable with the list for all sites; non-trivial = runs with a non-empty profile"
 	ctx.Assumptions = []string{"set algebra of the statement for disjoint flag sets", "the fake go tool stands for the disassembler"}
 	if replay != "" {
 		return finishReplay(ctx)
